@@ -23,7 +23,7 @@ PROPERTY = 'C35'
 ENGINE = 'E2 bfs'
 LEVEL = 'model_checking'
 LEVEL_TEXT = (
-    'Explicit-state BFS over every history of up to 3 (quick) / 4-5 (thorough) statements from a 20-26 '
+    'Explicit-state BFS over every history of up to 2-3 (quick) / 3-5 (thorough) statements from a 19-27 '
     'statement alphabet (PRINT short/row-filling/wrapping/newline, typed LINE INPUT wrapping at the margin, LOCATE corners, CLS, COLOR, VIEW PRINT, '
     'page switches, WIDTH, PCOPY, KEY ON/OFF, PSET/LINE/PUT) in 7 text and graphics mode configurations, '
     'executed on real sessions with a recording video queue; the reference display and a rebuild()-fed '
@@ -398,8 +398,8 @@ def legs(ctx):
         plan = [(cid, 'all', 2, None) for cid in CONFIGS] + [
             (cid, 'core', 3, None) for cid in ('cga-t80', 'cga-s1', 'ega-s9')]
     else:
-        plan = [(cid, 'all', 3, None) for cid in CONFIGS] + [
-            (cid, 'core', 5 if cid in ('cga-t80', 'cga-t40') else 4, 400) for cid in CONFIGS]
+        plan = [(cid, 'all', 4 if cid == 'cga-t80' else 3, None) for cid in CONFIGS] + [
+            (cid, 'core', 5 if cid in ('cga-t80', 'cga-t40') else 4, None) for cid in CONFIGS]
     for cid, opsel, depth, budget in plan:
         nops = len(CONFIGS[cid]['ops']) if opsel == 'all' else len(_core_ops(cid))
         out.append(Leg('bfs-%s-%s' % (cid, opsel), [(cid, opsel, depth, budget)], work_bfs, exhaustive=True,
